@@ -11,8 +11,9 @@
 
   The interpreter's `str.lower` / `str.upper` and the regex engine are parameters (`Env`).
   Oddities kept as they are:
-  * `check_for_exception` overwrites `iIndex` with the position of the word in `case_exceptions`:
-    the action's "index" is then that position, not the token position;
+  * (repaired in /repo, WP5c) `check_for_exception` used to overwrite `iIndex` with the position of the
+    word in `case_exceptions`: the action's "index" was that position, not the token position; the
+    list position has a variable of its own now;
   * (repaired in /repo, WP5b) `check_for_prefix_and_suffix_exceptions` used to detect the suffix on the
     whole name but look it up in what is left after removing the prefix: `get_matched_suffix`
     returned None when prefix and suffix overlap and `len(None)` raised TypeError; the suffix is
@@ -188,14 +189,15 @@ def checkForPrefixAndSuffixExceptions (p : Params) (v : Str) (idx : Int) (f : Ch
 
 /-- `check_for_exception`: `self.case_exceptions_lower` is `lowercase_list(self.case_exceptions)`
     (recomputed by `_get_tokens_of_interest` before every analysis); `list.index` raises ValueError.
-    The position found REPLACES the token index in the action. -/
-def checkForException (p : Params) (v : Str) : Except PyErr (Option Action) :=
+    The action records the index of the token it was handed (repaired: the position found in the
+    list used to REPLACE it). -/
+def checkForException (p : Params) (v : Str) (idx : Int) : Except PyErr (Option Action) :=
   match (p.exceptions.map E.lowerS).findIdx? (· == E.lowerS v) with
   | none => .error .valueError
   | some i =>
     match p.exceptions[i]? with
     | none => .error .indexError
-    | some e => .ok (if v != e then some { value := some e, index := (i : Int) } else none)
+    | some e => .ok (if v != e then some { value := some e, index := idx } else none)
 
 /-- `dChecker[check_prefix][check_suffix]` -/
 def dChecker (checkPrefix checkSuffix : Bool) (p : Params) (v : Str) (idx : Int) (f : Checker) :
@@ -210,7 +212,7 @@ def dChecker (checkPrefix checkSuffix : Bool) (p : Params) (v : Str) (idx : Int)
 def checkForCaseViolation (p : Params) (checkPrefix checkSuffix : Bool) (v : Str) (idx : Int) :
     Except PyErr (Option Action) :=
   if p.name != bitStringLiteral && doesNotContainAnyAlpha v then .ok none
-  else if p.exceptions.contains v then checkForException E p v
+  else if p.exceptions.contains v then checkForException E p v idx
   else do
     let f ← lookupCheck E p.style
     dChecker E checkPrefix checkSuffix p v idx f
